@@ -21,6 +21,8 @@ type extraSpec struct {
 	SameName bool // given: the instance packages share one package name (import alias numbering)
 	// OrderSensitive units get the larger number of repeated process starts (see repeats)
 	OrderSensitive bool
+	// Ambiguous units (one cheap gombok run each) get R >= 12 process starts in every tier
+	Ambiguous bool
 }
 
 func extraSpecs(tier string) []extraSpec {
@@ -37,6 +39,14 @@ func extraSpecs(tier string) []extraSpec {
 		{Name: "c13multi1", Kind: "multi", N: 3, OrderSensitive: true},
 		{Name: "c13multi2", Kind: "multi", N: 4, OrderSensitive: true},
 		{Name: "c13multi3", Kind: "multi", N: 5, OrderSensitive: true},
+		// phase dependencies inside one gombok run (extras3.go): first generation from scratch must be the fixpoint
+		{Name: "c13phase1", Kind: "phase", N: 1},
+		{Name: "c13phase2", Kind: "phase", N: 2},
+		{Name: "c13phase3", Kind: "phase", N: 3},
+		// choices the generator has to make the same way in every process (extras3.go)
+		{Name: "c13ambig1", Kind: "ambig", N: 1, Ambiguous: true},
+		{Name: "c13ambig2", Kind: "ambig", N: 2, Ambiguous: true},
+		{Name: "c13ambig3", Kind: "ambig", N: 3, Ambiguous: true},
 	}
 	return all // same packages in both tiers; the tiers differ in the number of repeats
 }
@@ -381,14 +391,19 @@ func (k *worker) runExtra(sp extraSpec) {
 		e.root = k.tree
 		e.d = Directive{Dir: "test/internal/c13x/" + sp.Name, File: sp.Name + ".go", Package: sp.Name, Generator: "gombok", Cmd: "go run " + k.sh.Plan.Module + "/cmd/gombok"}
 		switch sp.Kind {
-		case "given", "multi":
+		case "given", "multi", "phase", "ambig":
 			unitPath := k.sh.Plan.Module + "/" + e.d.Dir
 			var files map[string]string
 			var genFile string
-			if sp.Kind == "given" {
+			switch sp.Kind {
+			case "given":
 				files, genFile, e.contests = synthGiven(r, sp, unitPath)
-			} else {
+			case "multi":
 				files, genFile = synthMulti(r, sp, unitPath)
+			case "phase":
+				files, genFile = synthPhase(r, sp, unitPath)
+			default:
+				files, genFile = synthAmbig(r, sp, unitPath)
 			}
 			for n, c := range files {
 				e.inputs[n] = []byte(c)
@@ -448,6 +463,7 @@ func (k *worker) runExtra(sp extraSpec) {
 					w.Sample(sampleOf(e.o0, kind))
 				}
 				k.observeContests(e)
+				k.observeChoices(e)
 				return
 			}
 			k.needO0(e)
@@ -460,6 +476,16 @@ func (k *worker) runExtra(sp extraSpec) {
 			w.Add("repeated_runs", 1)
 			if sp.OrderSensitive {
 				w.Add("order_sensitive.repeated_runs", 1)
+			}
+			if sp.Ambiguous {
+				w.Add("ambiguous.repeated_runs", 1)
+			}
+			if sp.Kind == "phase" {
+				if onTop {
+					w.Add("phase.second_run_on_top_of_first_generation", 1)
+				} else {
+					w.Add("phase.repeated_first_generations_from_scratch", 1)
+				}
 			}
 			got := k.pkgSnap(e, cur.After)
 			for _, d := range k.compare(got, e.o0pkg) {
@@ -523,6 +549,27 @@ func (k *worker) observeContests(e *extra) {
 			w.Add("import_given.contested_instance_resolved_to_one_package", 1)
 			w.Add("import_given.other_than_first_directive_wins", 1)
 			w.Note(fmt.Sprintf("extra %s: %s resolved to %v although the first @fp.ImportGiven directive that offers it names %s", e.sp.Name, c.Symbol, sortedKeys(users), c.First))
+		}
+	}
+}
+
+// observeChoices records (evidence only, never a verdict) which of the instances an AMBIG unit leaves
+// to the generator the first generation used.
+func (k *worker) observeChoices(e *extra) {
+	if e.sp.Kind != "ambig" {
+		return
+	}
+	var gen []byte
+	for p, b := range e.o0.Content {
+		if strings.HasSuffix(p, "_derive_generated.go") {
+			gen = b
+		}
+	}
+	for _, c := range ambigChoices[e.sp.N] {
+		n := len(regexp.MustCompile(`\b`+regexp.QuoteMeta(c)+`\b`).FindAll(gen, -1))
+		if n > 0 {
+			k.w.Add("ambig.choice."+e.sp.Name+"."+c, int64(n))
+			k.w.Add("ambig.choices_observed", 1)
 		}
 	}
 }
